@@ -78,8 +78,8 @@ JudgeCallbacks(r) ==
     IN IF r.exc # "" THEN Verdict(r.id, "REJECT", "Raised", TRUE, r.exc)
        ELSE IF \E i \in 1..Len(fired) : fired[i] \notin planned THEN
             Verdict(r.id, "REJECT", "FiredForAbsentSite", TRUE, "")
-       ELSE IF \E pp \in planned : CountIn(fired, pp) = 0 THEN Verdict(r.id, "REJECT", "NotFired", TRUE, "")
-       ELSE IF \E pp \in planned : CountIn(fired, pp) > 1 THEN Verdict(r.id, "REJECT", "FiredTwice", TRUE, "")
+       ELSE IF \E pp \in planned : CountIn(fired, pp) < SitesWith(cs, pp[2]) THEN Verdict(r.id, "REJECT", "NotFired", TRUE, "")
+       ELSE IF \E pp \in planned : CountIn(fired, pp) > SitesWith(cs, pp[2]) THEN Verdict(r.id, "REJECT", "FiredTwice", TRUE, "")
        ELSE IF cs.pl = "both" /\ \E i \in 1..Len(sites) :
                   IndexIn(fired, <<"class", sites[i]>>) > IndexIn(fired, <<"method", sites[i]>>) THEN
             Verdict(r.id, "REJECT", "ClassAfterMethod", TRUE, "")
